@@ -44,6 +44,14 @@ def systems(seed):
     K = np.array([[50.0, -20.0, 0.0], [-20.0, 45.0, -0.01], [0.0, -0.01, 0.02]])
     B = np.array([[0.4, -0.1, 0.0], [-0.1, 0.6, 0.05], [0.0, 0.05, 1.0]])
     out.append(dict(name="coupled 3-DOF with slow root lam ~ -0.02, h=1e-3, 20 s", m=M, b=B, k=K, h=1e-3, nt=20001, tol=1e-5))
+    # widely scaled modal damping: three light modes (m = 1, zeta = 0.4 percent) weakly coupled to each other (5e-4) next to one heavy, heavily damped mode:
+    # the coupling is ~1e-8 of the largest damping entry but 2 percent of the light modes' own damping - it must not be dropped
+    wl = np.array([9.0, 11.0, 14.0])
+    mW = np.array([1.0, 1.0, 1.0, 2.0e4])
+    kW = np.array([wl[0] ** 2, wl[1] ** 2, wl[2] ** 2, 2.0e4 * 6.0 ** 2])
+    bW = np.diag([2 * 0.004 * wl[0], 2 * 0.004 * wl[1], 2 * 0.004 * wl[2], 2 * 0.3 * 6.0 * 2.0e4])
+    bW[0, 1] = bW[1, 0] = 5e-4; bW[1, 2] = bW[2, 1] = 5e-4; bW[0, 2] = bW[2, 0] = -5e-4
+    out.append(dict(name="widely scaled damping with weak coupling among the light modes (1-D mass and stiffness, 2-D damping), h=5e-3, 30 s", m=mW, b=bW, k=kW, h=5e-3, nt=6001, tol=1e-6))
     K2 = np.array([[50.0, -20.0, 0.0], [-20.0, 45.0, -5.0], [0.0, -5.0, 30.0]])
     out.append(dict(name="coupled 3-DOF, h=1e-2", m=M, b=B, k=K2 * 10, h=1e-2, nt=800, tol=1e-6))
     return out
@@ -82,6 +90,31 @@ def run(repo, seed, which=("SolveUnc", "SolveExp2")):
                                           m=np.asarray(m).tolist(), b=np.asarray(b).tolist(), k=np.asarray(k).tolist(),
                                           what="displacement differs from the exact first-order-hold solution (expm reference)"
                                           if bad.any() else "returned acceleration violates the equation of motion")
+    # pre_eig with residual-flexibility modes (zero initial conditions): the solver must equal the same solver run on the explicitly reduced modal system
+    #   phi from the generalized eigenproblem K phi = M phi w^2, modal m = I, b = phi^T B phi, k = w^2, force phi^T F, d = phi q
+    Mp = np.array([[2.0, 0.3, 0.0, 0.0], [0.3, 1.5, 0.2, 0.0], [0.0, 0.2, 3.0, 0.1], [0.0, 0.0, 0.1, 1.0]])
+    Kp = np.array([[90.0, -30.0, 0.0, 0.0], [-30.0, 60.0, -20.0, 0.0], [0.0, -20.0, 45.0, -5.0], [0.0, 0.0, -5.0, 4000.0]])
+    w2, phi = la.eigh(Kp, Mp)
+    zet = np.array([0.02, 0.03, 0.01, 0.05])
+    Bp = Mp @ phi @ np.diag(2 * zet * np.sqrt(w2)) @ phi.T @ Mp            # modal damping in physical coordinates
+    hp, ntp = 0.002, 300
+    tp = np.arange(ntp) * hp
+    Fp = np.vstack([np.interp(tp, np.linspace(0, tp[-1], 25), rng.randn(25)) for _ in range(4)])
+    for cls in which:
+        for order in (1, 0):
+            for rfm in ([3], [2, 3]):
+                try:
+                    sp_ = getattr(ode, cls)(Mp, Bp, Kp, hp, order=order, pre_eig=True, rf=rfm).tsolve(Fp)
+                    sm_ = getattr(ode, cls)(np.ones(4), phi.T @ Bp @ phi if cls == "SolveExp2" else np.diag(phi.T @ Bp @ phi).copy(), w2.copy(), hp, order=order, rf=rfm).tsolve(phi.T @ Fp)
+                except Exception as ex:
+                    continue                                         # configuration not supported by this solver class: nothing to compare
+                res["evaluations"] += 1
+                dm = phi @ sm_.d
+                e_ = abs(sp_.d - dm).max() / max(abs(dm).max(), 1e-12)
+                res["cases"].append(dict(system="pre_eig + rf %s vs explicit modal reduction" % rfm, solver=cls, order=order, max_rel_err=float(e_)))
+                if e_ > 1e-8 and res["failure"] is None:
+                    res["failure"] = dict(system="4-DOF coupled, pre_eig=True, rf=%s" % rfm, solver=cls, order=order, rel_err=float(e_),
+                                          what="with pre_eig=True and residual-flexibility modes the displacement differs from the explicitly reduced modal system (d = phi q)")
     return res
 
 
